@@ -128,35 +128,31 @@ Fixpoint remove_node (id : nat) (t : tree) {struct t} : tree :=
                 end) c)
   end.
 
-(* tree.rs:174 append_pre_header.  The Rust function inserts [new] among the children of the
-   node with [target] and then maps *itself* over the extended children list, i.e. it also
-   descends into the inserted copy of [new].  When [new] does not contain [target] that
-   descent is the identity (TreeOpsFacts.aph_fuel_ok); when it does (a note that references
-   itself from inside the section) every copy receives a further copy and the recursion never
-   ends: the real process overflows its stack and aborts.  [aph_fuel] is the literal function
-   with fuel, [append_pre_header] the closed form used by the actions. *)
-Fixpoint aph_fuel (fuel : nat) (target : nat) (new : tree) (t : tree) {struct fuel} : res tree :=
+(* tree.rs:174 append_pre_header (as repaired by 637566e): the children are processed first,
+   then [new] is inserted, as it is, among the children of every node with the target id. *)
+Fixpoint append_pre_header (target : nat) (new : tree) (t : tree) {struct t} : tree :=
+  match t with
+  | T i n c =>
+      let c' := map (fun ch => append_pre_header target new ch) c in
+      T i n (if id_eq t target then insert_at (pre_sub_header_position t) new c' else c')
+  end.
+
+(* As found before 637566e the function inserted [new] first and then mapped itself over the
+   extended children list, the inserted copy included: when [new] holds the target id again (a
+   note inlined into itself) every copy receives a further copy and the recursion never ends
+   (stack overflow, the process aborts).  The literal function needs fuel; no fuel suffices on
+   such an input (TreeOpsFacts.append_pre_header_as_found_diverges). *)
+Fixpoint append_pre_header_as_found (fuel : nat) (target : nat) (new : tree) (t : tree) {struct fuel} : res tree :=
   match fuel with
   | O => Panic "stack overflow: append_pre_header recursion does not end"
   | S f =>
       match t with
       | T i n c =>
           let c' := if id_eq t target then insert_at (pre_sub_header_position t) new c else c in
-          do kids <- fold_right (fun ch acc => do r <- acc; do x <- aph_fuel f target new ch; Ok (x :: r)) (Ok []) c';
+          do kids <- fold_right (fun ch acc => do r <- acc; do x <- append_pre_header_as_found f target new ch; Ok (x :: r)) (Ok []) c';
           Ok (T i n kids)
       end
   end.
-
-Fixpoint aph (target : nat) (new : tree) (t : tree) {struct t} : tree :=
-  match t with
-  | T i n c =>
-      let c' := map (fun ch => aph target new ch) c in
-      T i n (if id_eq t target then insert_at (pre_sub_header_position t) new c' else c')
-  end.
-
-Definition append_pre_header (target : nat) (new : tree) (t : tree) : res tree :=
-  if contains new target then Panic "stack overflow: append_pre_header recursion does not end"
-  else Ok (aph target new t).
 
 (* tree.rs:238 wrap_into_list *)
 Fixpoint wrap_into_list (id : nat) (t : tree) {struct t} : tree :=
